@@ -42,3 +42,5 @@ func VerifSpawn(r Runnable) bool {
 }
 
 func verifSpawn(r Runnable) bool { return VerifSpawn(r) }
+
+func verifYield(op string) { VerifYield(op) }
